@@ -180,3 +180,20 @@ M("C14", "V", "callback gets total twice", SENDMSG, "                        par
 M("C14", "V", "token sent differs from token awaited", SENDMSG, "        params[\"_meta\"][\"progressToken\"] = progress_token\n", "        params[\"_meta\"][\"progressToken\"] = str(uuid.uuid4())\n", "R5")
 M("C14", "B", "rename sub_timeout default kept", SENDMSG, "    sub_timeout: float = 0.5,\n", "    sub_timeout: float = 0.25,\n")
 M("C14", "B", "logging added before check", SENDMSG, "        # Check for cancellation\n        if cancellation_check:\n", "        logging.debug(\"poll\")\n        if cancellation_check:\n")
+
+# ------------------------------------------------------------------------------ C08
+M("C08", "V", "notification guard removed on lookup miss (pre-fix)", HANDLER, "        if not handler:\n            if is_notification:\n                return None, None\n", "        if not handler:\n", "R")
+M("C08", "V", "notification guard removed in except (pre-fix)", HANDLER, "            logging.error(f\"Handler error for {method}: {e}\")\n            if is_notification:\n                return None, None\n", "            logging.error(f\"Handler error for {method}: {e}\")\n", "R")
+M("C08", "V", "failing notification handler result returned", HANDLER, "            result = await handler(message, session_id)\n            if is_notification:\n                return None, None\n            return result\n", "            result = await handler(message, session_id)\n            return result\n", "R3")
+M("C08", "V", "-32600 for unknown method", HANDLER, "                msg_id, -32601, f\"Method not found: {method}\"", "                msg_id, -32600, f\"Method not found: {method}\"", "R4")
+M("C08", "V", "handler call outside try", HANDLER, "        try:\n            result = await handler(message, session_id)\n            if is_notification:\n                return None, None\n            return result\n        except Exception as e:\n",
+  "        result = await handler(message, session_id)\n        try:\n            if is_notification:\n                return None, None\n            return result\n        except Exception as e:\n", "R2")
+M("C08", "V", "response id from the session not the message", HANDLER, "        msg_id = getattr(message, \"id\", None)\n        return self.create_response(msg_id, {}), None\n", "        msg_id = session_id or getattr(message, \"id\", None)\n        return self.create_response(msg_id, {}), None\n", "R3")
+M("C08", "V", "attribute access on message in dispatcher", HANDLER, "        msg_id = getattr(message, \"id\", None)\n        is_notification = msg_id is None\n", "        msg_id = message.id\n        is_notification = msg_id is None\n", "R")
+M("C08", "V", "unknown tool → -32601", SERVER, "                message.id, -32602, f\"Unknown tool: {tool_name}\"", "                message.id, -32601, f\"Unknown tool: {tool_name}\"", "R4")
+M("C08", "V", "tool failure → -32000", SERVER, "                message.id, -32603, f\"Tool execution error: {str(e)}\"", "                message.id, -32000, f\"Tool execution error: {str(e)}\"", "R4")
+M("C08", "V", "resource handler invoked outside try", SERVER, "        try:\n            resource_info = self._resources[uri]\n            content = await resource_info[\"handler\"]()\n", "        resource_info = self._resources[uri]\n        content = await resource_info[\"handler\"]()\n        try:\n", "R4")
+M("C08", "V", "session activity update can raise before dispatch", HANDLER, "        if not method:\n            if is_notification:\n                return None, None\n            return self.create_error_response(msg_id, -32600, \"Invalid request\"), None\n", "        if not method:\n            return self.create_error_response(msg_id, -32600, \"Invalid request\"), None\n", "R")
+M("C08", "V", "except arm logs via message.method", HANDLER, "            logging.error(f\"Handler error for {method}: {e}\")\n", "            logging.error(f\"Handler error for {message.method}: {e}\")\n", "R2")
+M("C08", "B", "error construction extracted into a helper call order", HANDLER, "        is_notification = msg_id is None\n", "        is_notification = msg_id is None\n        logging.debug(\"dispatch\")\n")
+M("C08", "B", "guard spelled with msg_id is None", HANDLER, "        if not handler:\n            if is_notification:\n                return None, None\n", "        if not handler:\n            if msg_id is None:\n                return None, None\n")
